@@ -32,6 +32,23 @@ def view_aliasing(ctx, o3):
             wk = [k for k, insn in enumerate(tp.instructions) if insn.has_weight]
             if len(byiter) != len(wk):
                 ctx.violation("TensorProduct.weight_views/count", {"instructions": ins}, True)
+            # iteration with yield_instruction=True: (index in self.instructions, that instruction, the same slice as by-index lookup)
+            it_ok = True
+            for (j, insn, v), k in zip(tp.weight_views(yield_instruction=True), wk):
+                same = False
+                if j == k and insn is tp.instructions[k]:
+                    u = tp.weight_view_for_instruction(k)
+                    same = u.data_ptr() == v.data_ptr() and tuple(u.shape) == tuple(v.shape) == tuple(tp.instructions[k].path_shape)
+                ctx.case(f"view-iteration {i1} {i2} {io} instruction {k}")
+                if not same:
+                    it_ok = False
+                    ctx.violation("TensorProduct.weight_views/yielded-index-or-slice-wrong",
+                                  {"irreps": [i1, i2, io], "instructions": ins, "yielded_index": j, "expected_index": k,
+                                   "yielded_instruction_is_instructions[index]": bool(j < len(tp.instructions) and insn is tp.instructions[j]),
+                                   "yielded_shape": list(v.shape), "path_shape": list(tp.instructions[k].path_shape)}, True)
+                    break
+            if not it_ok:
+                continue
             total = 0
             for k in wk:
                 try:
